@@ -319,13 +319,19 @@ func (evm *EVM) Call(ctx context.Context, caller ethvm.ContractRef, addr common.
 		if len(code) == 0 {
 			ret, err = nil, nil // gas is unchanged
 		} else {
+			// The join point messages carry the calldata in a required field: empty calldata, which the CALL
+			// opcode passes as a nil slice, must be sent as empty rather than left unset.
+			jpData := input
+			if jpData == nil {
+				jpData = []byte{}
+			}
 			if evm.IsExecuteJP {
 				preCallResult := djpm.AspectInstance().PreContractCall(ctx, caller.Address(), addr, input, int64(blockNum), gas, value, &types.PreContractCallInput{
 					Call: &types.PreExecMessageInput{
 						From:  caller.Address().Bytes(),
 						To:    addr.Bytes(),
 						Index: &currentCall.Index,
-						Data:  input,
+						Data:  jpData,
 						Value: value.Bytes(),
 						Gas:   &gas,
 					},
@@ -367,7 +373,7 @@ func (evm *EVM) Call(ctx context.Context, caller ethvm.ContractRef, addr common.
 						From:  caller.Address().Bytes(),
 						To:    addr.Bytes(),
 						Index: &currentCall.Index,
-						Data:  input,
+						Data:  jpData,
 						Value: value.Bytes(),
 						Gas:   &gas,
 						Ret:   ret,
